@@ -67,4 +67,23 @@ PROPS = {
         'harnesses': ['c16::h_records', 'c16::h_io_error'],
         'covers': {'c16::h_records': ['ok-two-records', 'rejected'], 'c16::h_io_error': ['error-injected', 'no-error']},
     },
+    'C12': {
+        'harnesses': ['c12::h_verify', 'c12::h_find'],
+        'covers': {'c12::h_verify': ['size-ok', 'size-mismatch', 'checksum-ok', 'checksum-mismatch'],
+                   'c12::h_find': ['found', 'not-found']},
+    },
+    'C13': {
+        'harnesses': ['c13::h_file', 'c13::h_str', 'c13::h_patch', 'c13::h_patch_algs', 'c13::h_names'],
+        'covers': {'c13::h_file': ['hard-error', 'hashed'], 'c13::h_str': ['hashed'], 'c13::h_patch': ['line-removed'],
+                   'c13::h_names': ['parsed', 'rejected']},
+    },
+    'C20': {
+        'harnesses': ['c20::h_iterate', 'c20::h_filenames', 'c20::h_is_valid'],
+        'covers': {'c20::h_iterate': ['two-packages', 'optional-file-read'], 'c20::h_filenames': ['known', 'unknown'],
+                   'c20::h_is_valid': ['valid']},
+    },
+    'C17': {
+        'harnesses': ['c17::h_pattern', 'c17::h_pattern_tokens', 'c17::h_names', 'c17::h_revision_digits', 'c17::h_summary_text', 'c17::h_summary_stream', 'c17::h_bytes_parsers', 'c17::h_distinfo_line', 'c17::h_plist_line', 'c17::h_scanindex', 'c17::h_metadata', 'c17::h_pkgdb', 'c17::h_summary_calls'],
+        'covers': {'c17::h_pkgdb': ['package-listed']},
+    },
 }
